@@ -25,6 +25,8 @@ func dispatch(op string, fields []string) string {
 		return opParse(fields)
 	case "runbig":
 		return opRunBig(fields)
+	case "trace":
+		return opTrace(fields)
 	}
 	if f, ok := extraOps[op]; ok {
 		return f(fields)
@@ -117,6 +119,14 @@ func leanCase(c Case, impl string) (string, bool) {
 			line += "\t" + res
 		}
 		return line, true
+	}
+	if c.Op == "trace" {
+		for _, part := range strings.Split(impl, "\t") {
+			if strings.HasPrefix(part, "AST ") {
+				return c.ID + "\ttrace\t" + part[4:] + "\t" + c.Fields[1], true
+			}
+		}
+		return "", false
 	}
 	if f, ok := leanCaseExtra[c.Op]; ok {
 		return f(c, impl)
